@@ -152,7 +152,7 @@ func main() {
 }
 
 type stats struct {
-	files, gos, sends, recvs, selects, closes, rangeChans, rangeMaps, sleeps, calls, imports int
+	files, gos, sends, recvs, selects, closes, rangeChans, rangeMaps, sleeps, calls, imports, enters int
 }
 
 func (s *stats) add(o stats) {
@@ -167,6 +167,7 @@ func (s *stats) add(o stats) {
 	s.sleeps += o.sleeps
 	s.calls += o.calls
 	s.imports += o.imports
+	s.enters += o.enters
 }
 
 type instr struct {
@@ -188,6 +189,19 @@ type instr struct {
 	needRT     bool
 	dirty      bool
 	directives []string
+}
+
+// hasDirective reports whether the file carries a compiler directive that would be lost by rewriting it
+func (in *instr) hasDirective() bool {
+	for _, cg := range in.file.Comments {
+		for _, c := range cg.List {
+			if strings.HasPrefix(c.Text, "//go:linkname") || strings.HasPrefix(c.Text, "//go:embed") ||
+				strings.HasPrefix(c.Text, "//go:noescape") || strings.HasPrefix(c.Text, "//export") {
+				return true
+			}
+		}
+	}
+	return false
 }
 
 func (in *instr) site(n ast.Node) ast.Expr {
@@ -409,6 +423,39 @@ func (in *instr) run() bool {
 	if len(in.labelSlot) != 0 {
 		// blocks that were never labelled: fine
 		in.labelSlot = nil
+	}
+
+	// function-entry preemption points (only active in runs that ask for fine-grained interleaving): a goroutine can be
+	// descheduled between two calls, which is where unsynchronised sharing between goroutines shows. Small functions are
+	// left alone (they stay inlinable; the calls around them are what matters).
+	if in.isRepo && !in.sleepOnly && !in.hasDirective() {
+		for _, d := range in.file.Decls {
+			fd, ok := d.(*ast.FuncDecl)
+			if !ok || fd.Body == nil || fd.Name.Name == "init" || len(fd.Body.List) < 3 {
+				continue
+			}
+			name := fd.Name.Name
+			if fd.Recv != nil && len(fd.Recv.List) == 1 {
+				t := fd.Recv.List[0].Type
+				if st, ok := t.(*ast.StarExpr); ok {
+					t = st.X
+				}
+				if ix, ok := t.(*ast.IndexExpr); ok {
+					t = ix.X
+				}
+				if ix, ok := t.(*ast.IndexListExpr); ok {
+					t = ix.X
+				}
+				if id, ok := t.(*ast.Ident); ok {
+					name = id.Name + "." + name
+				}
+			}
+			p := in.fset.Position(fd.Pos())
+			site := &ast.BasicLit{Kind: token.STRING, Value: strconv.Quote(fmt.Sprintf("enter %s:%d %s", in.rel, p.Line, name))}
+			fd.Body.List = append([]ast.Stmt{&ast.ExprStmt{X: in.call("Enter", site)}}, fd.Body.List...)
+			in.st.enters++
+			in.dirty = true
+		}
 	}
 
 	// import substitution
